@@ -57,8 +57,37 @@ class Seams:
         return out
 
 
+def _freeze(v, depth=0):
+    if isinstance(v, dict):
+        return ("d", tuple(sorted(((repr(k), _freeze(x, depth + 1)) for k, x in v.items()))))
+    if isinstance(v, (list, tuple)):
+        return ("l", tuple(_freeze(x, depth + 1) for x in v))
+    if isinstance(v, (set, frozenset)):
+        return ("s", tuple(sorted(repr(x) for x in v)))
+    if isinstance(v, (bytes, str, int, float, bool, type(None))):
+        return v
+    return ("o", id(v))
+
+
 def registry_snapshot():
-    return tuple(id(getattr(_crypto, "_" + "_" + n)) for n in ("AES128", "PublicEccKey", "PrivateEccKey", "random_bytes"))
+    """Library-global state: the four registered crypto back ends (identity) and the CONTENT of every module-level or
+    class-level mutable container of the bec2format package (tables such as HWCID_MAP / REV_HWCID_MAP / BF2_TAGTYPE_MAP,
+    default key tables, class maps, caches somebody might add)."""
+    import sys as _sys
+    snap = [tuple(id(getattr(_crypto, "_" + "_" + n)) for n in ("AES128", "PublicEccKey", "PrivateEccKey", "random_bytes"))]
+    for name in sorted(m for m in _sys.modules if m == "bec2format" or m.startswith("bec2format.")):
+        mod = _sys.modules[name]
+        for attr in sorted(vars(mod)):
+            v = vars(mod)[attr]
+            if attr.startswith("__") and attr.endswith("__"):
+                continue
+            if isinstance(v, (dict, list, set)):
+                snap.append((name, attr, _freeze(v)))
+            elif isinstance(v, type) and getattr(v, "__module__", None) == name:
+                for ca, cv in sorted(vars(v).items()):
+                    if not (ca.startswith("__") and ca.endswith("__")) and (isinstance(cv, (dict, list, set)) or cv is None or isinstance(cv, (bytes, int, str))):
+                        snap.append((name, attr + "." + ca, _freeze(cv)))
+    return tuple(snap)
 
 
 def code_key(code):
